@@ -199,9 +199,17 @@ extern "C" int simk_sem_timedwait(sem_t *s, const struct timespec *abs)
 		return -1;
 	}
 	if (abs->tv_nsec < 0 || abs->tv_nsec >= 1000000000L) { errno = EINVAL; return -1; }
-	if (fault_here(F_EINTR_WAIT, g_cfg.rate_eintr, NULL, 0)) { yield(Y_CALL, S_SEM_TIMED); errno = EINTR; return -1; }
 	int64_t dl = ((int64_t)abs->tv_sec * 1000000000LL + abs->tv_nsec) - real_base();
 	if (dl < 0) dl = 0;
+	int64_t frac;
+	if (fault_here(F_EINTR_WAIT, g_cfg.rate_eintr, &frac, 1001)) {
+		// a signal handler ran: at once, or after part of the wait has gone by (the semaphore may be posted meanwhile)
+		if (frac > 0 && dl > now_ns()) {
+			int64_t part = (dl - now_ns()) / 1000 * (frac > 1000 ? 1000 : frac);
+			if (block_until(sem_avail, m, now_ns() + part, S_SEM_TIMED) == 0) { m->value--; return 0; }
+		} else yield(Y_CALL, S_SEM_TIMED);
+		errno = EINTR; return -1;
+	}
 	int r = block_until(sem_avail, m, dl, S_SEM_TIMED);
 	if (r == 0) { m->value--; return 0; }
 	errno = ETIMEDOUT;
